@@ -126,3 +126,18 @@ fn ol_uint_one_shl(s: u32) -> (r: Uint)
     Uint::ONE << s
 }
 } // verus!
+
+verus! {
+/// `zn.n` read from another module (ZmodN has private fields, so Verus keeps the whole struct opaque there): outlined
+/// accessor, trusted contract
+pub closed spec fn ol_zn_n_spec(zn: &ZmodN) -> Uint { zn.n }
+#[verifier::external_body]
+pub fn ol_zn_n(zn: &ZmodN) -> (r: Uint)
+    ensures r == ol_zn_n_spec(zn), uv(r) == zn.nval()
+{
+    zn.n
+}
+pub proof fn lemma_zn_n(zn: &ZmodN)
+    ensures uv(ol_zn_n_spec(zn)) == zn.nval()
+{}
+} // verus!
